@@ -15,7 +15,8 @@ theorem step_of_done {c : Cfg} {s : State} (e : Env) (h : isDone c s = true) :
 theorem step_of_not_done {c : Cfg} {s : State} (e : Env) (h : isDone c s = false) :
     step c s e = ((active c s e).st,
       { done := isDone c (active c s e).st, req := (active c s e).req,
-        refined := (active c s e).refined, batchExceeds := (active c s e).exceeds }) := by
+        refined := (active c s e).refined, batchExceeds := (active c s e).exceeds,
+        cap := (active c s e).cap }) := by
   simp [step, h]
 
 /-- the returned flag is the termination test on the state the call leaves behind -/
